@@ -4022,18 +4022,22 @@ func (d *bincDecDriverBytes) nextValueBytesBdReadR() {
 		d.r.skip(clen)
 	case bincVdArray:
 		clen = fnLen(d.vs)
+		d.d.depthIncr()
 		for i := uint(0); i < clen; i++ {
 			d.readNextBd()
 			d.nextValueBytesBdReadR()
 		}
+		d.d.depthDecr()
 	case bincVdMap:
 		clen = fnLen(d.vs)
+		d.d.depthIncr()
 		for i := uint(0); i < clen; i++ {
 			d.readNextBd()
 			d.nextValueBytesBdReadR()
 			d.readNextBd()
 			d.nextValueBytesBdReadR()
 		}
+		d.d.depthDecr()
 	default:
 		halt.errorf("cannot infer value - %s %x-%x/%s", msgBadDesc, d.vd, d.vs, bincdesc(d.vd, d.vs))
 	}
@@ -8103,18 +8107,22 @@ func (d *bincDecDriverIO) nextValueBytesBdReadR() {
 		d.r.skip(clen)
 	case bincVdArray:
 		clen = fnLen(d.vs)
+		d.d.depthIncr()
 		for i := uint(0); i < clen; i++ {
 			d.readNextBd()
 			d.nextValueBytesBdReadR()
 		}
+		d.d.depthDecr()
 	case bincVdMap:
 		clen = fnLen(d.vs)
+		d.d.depthIncr()
 		for i := uint(0); i < clen; i++ {
 			d.readNextBd()
 			d.nextValueBytesBdReadR()
 			d.readNextBd()
 			d.nextValueBytesBdReadR()
 		}
+		d.d.depthDecr()
 	default:
 		halt.errorf("cannot infer value - %s %x-%x/%s", msgBadDesc, d.vd, d.vs, bincdesc(d.vd, d.vs))
 	}
